@@ -25,6 +25,12 @@ uint64_t vr_strlen(const char* s){
   for (int i = 0; i < vr_nreg && i < VR_MAXREG; i++) if (s == vr_reg[i].p) return vr_reg[i].len;
   uint64_t n = 0; while (s[n]) n++; return n;
 }
+/* strcmp that never runs past a terminator symex cannot see: bounded by the registered length of either argument */
+int vr_strcmp(const char* a, const char* b){
+  uint64_t bound = (uint64_t)-1;
+  for (int i = 0; i < vr_nreg && i < VR_MAXREG; i++) { if (a == vr_reg[i].p && vr_reg[i].len < bound) bound = vr_reg[i].len; if (b == vr_reg[i].p && vr_reg[i].len < bound) bound = vr_reg[i].len; }
+  for (uint64_t i = 0; ; i++) { unsigned char x = (unsigned char)a[i], y = (unsigned char)b[i]; if (x != y) return x < y ? -1 : 1; if (x == 0 || i == bound) return 0; }
+}
 /* alignment is read off the offset inside the object (objects themselves are suitably aligned): foldable by symex */
 #define AL(p, k) (__CPROVER_POINTER_OFFSET(p) % (k) == 0)
 void* vr_memmove(void* d, const void* s, uint64_t n){
